@@ -10,7 +10,35 @@ class RemoveObject(SuiteTransformer):
         if sys.version_info < (3, 0):
             return node
 
+        if self.binds_object(node):
+            # The name object may not refer to the builtin in this module
+            return node
+
         return self.visit(node)
+
+    @staticmethod
+    def binds_object(module):
+        """
+        Does anything in this module bind the name 'object'
+        """
+
+        for node in ast.walk(module):
+            if isinstance(node, ast.Name):
+                if node.id == 'object' and not isinstance(node.ctx, ast.Load):
+                    return True
+            elif isinstance(node, ast.alias):
+                if (node.asname or node.name.split('.')[0]) == 'object':
+                    return True
+            elif not isinstance(node, ast.keyword):
+                for field in ('name', 'arg', 'rest'):
+                    if getattr(node, field, None) == 'object':
+                        return True
+
+                names = getattr(node, 'names', None)
+                if isinstance(names, list) and 'object' in names:
+                    return True
+
+        return False
 
     def visit_ClassDef(self, node):
         node.bases = [
